@@ -183,7 +183,11 @@ def run_battery(prop, mod, base_keys):
                 continue
             mprog = Program(facts_dir, crates=getattr(mod, "CRATES", None))
             mctx = Ctx(mprog, prop, "quick")
-            mod.run(mctx)
+            extract.SRC_ROOT[0] = scratch
+            try:
+                mod.run(mctx)
+            finally:
+                extract.SRC_ROOT[0] = None
             new = sorted({v.key for v in mctx.violations} - set(base_keys))
             out["mutants_run"] += 1
             if new:
@@ -217,6 +221,8 @@ def run_property(prop, module_name, argv):
     seed = int(os.environ.get("VERIF_SEED", "0") or 0)
     t0 = time.time()
     mod = importlib.import_module("rules." + module_name)
+    if args.repo:
+        extract.SRC_ROOT[0] = args.repo
     facts_dir, fhash, ext_s = extract.ensure_facts(args.repo)
     prog = Program(facts_dir, crates=getattr(mod, "CRATES", None))
     # ---- checker self-test on the witness crate (same extractor, same run) -------------------
